@@ -22,7 +22,7 @@ pub fn first_diff(a: &[u8], b: &[u8]) -> String {
 pub fn run(ctx: &mut Ctx) {
     let fams = dfam::build(ctx.quick());
     let env = Env::new();
-    let sel = dfam::Sel { tiny: true, shapes: true, big: true, shape_cfg_stride: if ctx.quick() { 3 } else { 1 } };
+    let sel = dfam::Sel { tiny: true, shapes: true, big: true, sweep: true, shape_cfg_stride: if ctx.quick() { 3 } else { 1 } };
     dfam::for_each(ctx, &fams, sel, |ctx, it| {
         ctx.case(
             it.fam,
